@@ -309,3 +309,54 @@ pub async fn quiesce() {
         tokio::task::yield_now().await;
     }
 }
+
+
+/// C09 cross-check: a fragment the endpoint under test transmitted is parsed by the library's parser in the
+/// peer's role and compared with what the harness codec reads: function / control / IIN bytes, object headers
+/// (group, variation, qualifier, count, range).  "ok" or a description of the first difference.
+pub fn peer_check(frag: &[u8], is_response: bool) -> String {
+    let f = frag.to_vec();
+    let res = std::panic::catch_unwind(move || {
+        dnp3::verif_shim::parse_summary(&f, !is_response, dnp3::decode::AppDecodeLevel::ObjectValues)
+    });
+    let s = match res {
+        Ok(s) => s,
+        Err(_) => {
+            let _ = take_panic();
+            return "panic".to_string();
+        }
+    };
+    let hdr_len = if is_response { 4 } else { 2 };
+    if frag.len() < hdr_len {
+        return "short".to_string();
+    }
+    if s.header != "ok" {
+        return format!("header:{}", s.header);
+    }
+    if s.role != "ok" {
+        return format!("role:{}", s.role);
+    }
+    if s.objects != "ok" {
+        return format!("objects:{}", s.objects);
+    }
+    let with_data = is_response || frag[1] != 1;
+    let w = codec::walk_objects(&frag[hdr_len..], with_data);
+    if w.error.is_some() {
+        return format!("reference:{:?}", w.error);
+    }
+    if w.headers.len() != s.headers.len() {
+        return format!("header-count:{}!={}", s.headers.len(), w.headers.len());
+    }
+    for (a, b) in s.headers.iter().zip(w.headers.iter()) {
+        let count = match (b.range, b.count) {
+            (Some((x, y)), _) => (y - x + 1) as usize,
+            (None, Some(c)) => c as usize,
+            _ => 0,
+        };
+        let rng = b.range.map(|(x, y)| (Some(x), Some(y))).unwrap_or((None, None));
+        if a.group != b.g || a.variation != b.v || a.qualifier != b.q || a.count != count || (a.first, a.last) != rng {
+            return format!("header:g{}v{} q{:02x} count {} vs g{}v{} q{:02x} count {}", a.group, a.variation, a.qualifier, a.count, b.g, b.v, b.q, count);
+        }
+    }
+    "ok".to_string()
+}
